@@ -15,7 +15,7 @@ from mc import base
 PROPERTY = "C08"
 LEVEL = "model_checking"
 
-BOUNDS = {"quick": [("empty", 4), ("family", 3), ("spent", 3)], "thorough": [("empty", 5), ("family", 4), ("spent", 4), ("written", 4)]}
+BOUNDS = {"quick": [("empty", 4), ("family", 3), ("spent", 3), ("views", 4)], "thorough": [("empty", 5), ("family", 4), ("spent", 4), ("written", 4), ("views", 5)]}
 MAX_SLOTS = 6
 
 
@@ -60,6 +60,10 @@ class World:
             self.mark_cleared(y)
             y.backward()
             self.enter(x.data, y.data)
+        elif kind == "views":
+            self.add("V1", self.s["A"][1:], "npv")
+            self.add("V2", self.s["A"][:3], "npv")
+            self.add("x3", mg.tensor([1.0, 2.0, 3.0]), "ten")  # an input that does not touch A's memory
         elif kind == "written":
             x = mg.tensor([1.0, 2.0, 3.0, 4.0])
             self.add("x", x, "ten")
@@ -246,7 +250,7 @@ def render(st):
         "iadd": lambda: "%s += 1.0" % st[1],
         "backward": lambda: "%s.backward()" % st[1],
         "clear": lambda: "%s.clear_graph()" % st[1],
-        "fail": lambda: "try: mg.add(%s, np.zeros(7))\nexcept ValueError: pass" % st[1],
+        "fail": lambda: "try: mg.matmul(%s, np.zeros((9, 9)))\nexcept ValueError: pass" % st[1],
         "del": lambda: "del %s" % st[1],
     }[k]()
 
@@ -301,7 +305,7 @@ def apply(w, st):
         elif k == "fail":
             src = s[st[1]]
             try:
-                mg.add(src, np.zeros(7))
+                mg.matmul(src, np.zeros((9, 9)))
                 res = ("no_raise", "")
             except ValueError as e:
                 del e
